@@ -741,6 +741,8 @@ def _make_case(cfg):
     if cfg.get("positive"):
         beta = numpy.abs(beta)
         X = X + (1.0 if cfg.get("container") == "intX" else 0.5)
+        if cfg.get("negative_column"):
+            X[:, 0] = -numpy.abs(X[:, 0]) - 1.0        # a feature that only takes negative values (a loss, a depth)
     y = X @ beta + (1.0 if cfg.get("fit_intercept", True) else 0.0) + rs.randn(n) * cfg["noise"]
     y = y * cfg.get("scale", 1.0)          # targets of another scale; the residual floor `delta` is scaled alike
     if cfg.get("offset") and cfg.get("fit_intercept", True):
@@ -898,6 +900,8 @@ def _configs(ctx, count):
             out[-1]["scale"] = rng.choice([1e-6, 1e-3, 1e3])
         if t % 4 == 2:
             out[-1]["reconfigured"] = True
+        if out[-1]["positive"] and t % 2:
+            out[-1]["negative_column"] = True
         if t % 7 == 4 and not out[-1]["positive"] and "scale" not in out[-1]:
             # (positive=True also bounds the intercept: the level matters there; a level of 1e5 on targets of spread 1e-6
             #  would leave four significant digits to the residuals)
